@@ -360,3 +360,53 @@ func vh_C18_split_attributes() {
 	}
 	verifReach("end")
 }
+
+//assume: C10.order: up to 13 parts with short symbolic values (the 4000-byte splitting itself is vh_C10_split); the browser presents the parts in ascending, descending or rotated header order, with an unrelated look-alike cookie in between
+
+// (e) loading joins the parts in index order 0,1,2,… whatever order the browser lists them in,
+// for more than ten parts too (N_10 sorts before N_2 as text)
+// verif: unwind=16 strlen=4 tunwind=16 tstrlen=6
+func vh_C10_load_order() {
+	name := vName(ndChoice("name", 2))
+	k := 2 + ndChoice("parts", 12) // 2..13
+	vals := make([]string, k)
+	want := ""
+	for i := 0; i < k; i++ {
+		vals[i] = ndString("part")
+		want += vals[i]
+	}
+	req := vReq("app.example")
+	order := ndChoice("order", 3)
+	rot := 0
+	if order == 2 {
+		rot = ndChoice("rotate", 13)
+		verifAssume(rot < k)
+	}
+	for j := 0; j < k; j++ {
+		i := j
+		if order == 1 {
+			i = k - 1 - j
+		} else if order == 2 {
+			i = (j + rot) % k
+		}
+		if j == 1 {
+			req.AddCookie(&http.Cookie{Name: name + "_x", Value: "zz"})
+			req.AddCookie(&http.Cookie{Name: "x" + splitCookieName(name, 1), Value: "yy"})
+		}
+		req.AddCookie(&http.Cookie{Name: splitCookieName(name, i), Value: vals[i]})
+	}
+	c, err := loadCookie(req, name)
+	verifAssert("C10.order.loads", err == nil && c != nil)
+	if err != nil || c == nil {
+		return
+	}
+	verifAssert("C10.order.joined-in-index-order", c.Value == want)
+	verifAssert("C10.order.name", c.Name == name)
+	if k > 10 {
+		verifReach("more-than-ten-parts")
+	}
+	if order != 0 {
+		verifReach("shuffled")
+	}
+	verifReach("end")
+}
